@@ -22,6 +22,14 @@ type QGen struct {
 	PTypename    int
 	PDirective   int
 	WantIll      string // "", or one of IllKinds: inject this at the first opportunity
+	PCross       int    // percentage of named-fragment spreads that reuse a fragment written for ANOTHER object type
+	//                  (thunder applies every fragment under an object type, whatever its type condition)
+	Cross     int  // number of such spreads made
+	CrossArgs bool // also reuse fragments that select a field carrying arguments in some type (thunder parses the
+	//                   arguments of a shared selection for the first type only: known finding, off by default)
+	fragFields map[string]map[string]bool // fragment -> field names selected in it, transitively
+	collectors []map[string]bool
+	argNames   map[string]bool
 
 	Ill         string // what was injected ("" = well-formed)
 	frags       []string
@@ -147,6 +155,7 @@ func (g *QGen) field(tn string, def *TDef, depth int) string {
 			}
 			continue
 		}
+		g.use(f.Name)
 		s := g.alias(f.Name) + f.Name + args + g.directive()
 		switch {
 		case comp && g.inject("composite-without-selection"):
@@ -169,18 +178,85 @@ func (g *QGen) fragment(tn string, depth int, inline bool) string {
 	if g.fragsByType == nil {
 		g.fragsByType = map[string][]string{}
 	}
+	if g.PCross > 0 && r.Chance(g.PCross) {
+		// a fragment of another object type: well-formed here only if this type has all of its fields too
+		var others []string
+		for _, tn2 := range g.D.Names() {
+			if tn2 != tn && g.D.Defs[tn2].Kind == "object" {
+				others = append(others, g.fragsByType[tn2]...)
+			}
+		}
+		if !g.CrossArgs {
+			// keep argument parsing out of it: no field of the fragment may carry arguments in any type
+			keep := others[:0]
+			for _, f := range others {
+				if !g.touchesArgs(f) {
+					keep = append(keep, f)
+				}
+			}
+			others = keep
+		}
+		if len(others) > 0 {
+			g.Cross++
+			f := r.Pick(others)
+			g.useAll(g.fragFields[f])
+			return "..." + f + g.directive()
+		}
+	}
 	if ex := g.fragsByType[tn]; len(ex) > 0 && (r.Chance(50) || g.nfrag >= 6) {
-		return "..." + r.Pick(ex) + g.directive()
+		f := r.Pick(ex)
+		g.useAll(g.fragFields[f])
+		return "..." + f + g.directive()
 	}
 	if g.nfrag >= 6 {
 		return "... on " + tn + " " + g.SelSet(tn, depth)
 	}
 	name := fmt.Sprintf("Fr%d", g.nfrag)
 	g.nfrag++
+	used := map[string]bool{}
+	g.collectors = append(g.collectors, used)
 	body := g.SelSet(tn, depth) // fragments created inside get their own names; no cycle can arise
+	g.collectors = g.collectors[:len(g.collectors)-1]
+	if g.fragFields == nil {
+		g.fragFields = map[string]map[string]bool{}
+	}
+	g.fragFields[name] = used
+	g.useAll(used)
 	g.frags = append(g.frags, "fragment "+name+" on "+tn+" "+body)
 	g.fragsByType[tn] = append(g.fragsByType[tn], name)
 	return "..." + name + g.directive()
+}
+
+func (g *QGen) use(field string) {
+	for _, c := range g.collectors {
+		c[field] = true
+	}
+}
+
+func (g *QGen) useAll(fields map[string]bool) {
+	for f := range fields {
+		g.use(f)
+	}
+}
+
+// touchesArgs reports whether fragment f selects a field name that carries arguments in some object type.
+func (g *QGen) touchesArgs(f string) bool {
+	if g.argNames == nil {
+		g.argNames = map[string]bool{}
+		for _, d := range g.D.Defs {
+			for _, fd := range d.Fields {
+				if len(fd.ArgKeys) > 0 {
+					g.argNames[fd.Name] = true
+				}
+			}
+		}
+	}
+	for name := range g.fragFields[f] {
+		if g.argNames[name] {
+			return true
+		}
+	}
+	return false
 }
 
 // Document returns the text of one operation on the root type plus the fragments it uses.
@@ -191,4 +267,60 @@ func (g *QGen) Document(kind, root string, depth int) string {
 		head += "($yes: Boolean = true, $no: Boolean = false)"
 	}
 	return head + " " + body + "\n" + strings.Join(g.frags, "\n")
+}
+
+// CraftCrossArgs returns queries that spread one named fragment under two object types A and B, both
+// reachable from a root field, where field f takes no arguments in A and takes some in B (A first).
+func CraftCrossArgs(d *SchemaDesc, argSamples map[string][]string, root string) []string {
+	var out []string
+	rootDef := d.Defs[root]
+	if rootDef == nil {
+		return nil
+	}
+	via := map[string]string{} // object type -> root field text that returns it
+	for _, f := range rootDef.Fields {
+		tn := f.Type.NamedOf()
+		if d.Defs[tn] == nil || d.Defs[tn].Kind != "object" || strings.HasPrefix(f.Name, "__") {
+			continue
+		}
+		args := ""
+		if len(f.ArgKeys) > 0 {
+			ss := argSamples[root+"."+f.Name]
+			if len(ss) == 0 {
+				continue
+			}
+			args = ss[0]
+		}
+		if _, ok := via[tn]; !ok {
+			via[tn] = f.Name + args
+		}
+	}
+	for _, a := range d.Names() {
+		for _, b := range d.Names() {
+			if a == b || via[a] == "" || via[b] == "" {
+				continue
+			}
+			for _, fa := range d.Defs[a].Fields {
+				if len(fa.ArgKeys) > 0 {
+					continue
+				}
+				for _, fb := range d.Defs[b].Fields {
+					if fb.Name != fa.Name || len(fb.ArgKeys) == 0 {
+						continue
+					}
+					compA := d.Defs[fa.Type.NamedOf()] != nil && (d.Defs[fa.Type.NamedOf()].Kind == "object" || d.Defs[fa.Type.NamedOf()].Kind == "union")
+					compB := d.Defs[fb.Type.NamedOf()] != nil && (d.Defs[fb.Type.NamedOf()].Kind == "object" || d.Defs[fb.Type.NamedOf()].Kind == "union")
+					if compA != compB {
+						continue
+					}
+					sub := ""
+					if compA {
+						sub = " { __typename }"
+					}
+					out = append(out, fmt.Sprintf("query Op { x1: %s { ...F } x2: %s { ...F } }\nfragment F on %s { %s%s }", via[a], via[b], a, fa.Name, sub))
+				}
+			}
+		}
+	}
+	return out
 }
